@@ -640,6 +640,11 @@ func (x *Exec) closedImpls(c *ssa.CallCommon) []implCase {
 			if _, isIface := t.Underlying().(*types.Interface); isIface {
 				continue
 			}
+			if strings.Contains(name, "_github_com_") {
+				// gomacro's generated proxies (x_package.go) let interpreted code implement a compiled
+				// interface: outside the closed world, which is about the compiled implementations
+				continue
+			}
 			for _, dt := range []types.Type{t, types.NewPointer(t)} {
 				if !types.Implements(dt, iface) {
 					continue
